@@ -127,7 +127,9 @@ claim(
     "over the finite kind set); the keyword carrying the templated name is the one that names the emitted "
     "symbol; `__future__` imports are ordered first (sorted / list.sort key and direction, or partition order); the "
     "per-symbol results of infer_imports (None for an import-free symbol) pass a None filter before they are "
-    "iterated, and the rendered import statements are joined by a statement separator.",
+    "iterated, and the rendered import statements are joined by a statement separator; the invocations for which main "
+    "skips the refusal are exactly those for which gen takes its update arm (both conditions folded over phase x emit kind); no "
+    "local cache in the gen pipeline is keyed by a lossy projection (type(v), an attribute) of the object its value is computed from.",
     "NOT decided: that the written module compiles for every input, that each generated symbol re-parses "
     "to its source entry, completeness of import inference (value level). Trusted: folding of the repo's "
     "own tables from source.",
@@ -199,7 +201,8 @@ claim(
     "object, properties dict, required list and a description that is a str on every path (never None); the "
     "Literal<->pattern separator constant agrees between emitter and parser and members are sorted; no test in "
     "the property translators reads a key (e.g. `typ` after it was renamed to `type`) that is certainly absent "
-    "where it is read — such a guard is constant.",
+    "where it is read — such a guard is constant; no function of the JSON-schema emit/parse pipeline keeps module-level "
+    "state, memoises or shares a mutable default (C10's call-history rules on that slice).",
     "NOT decided: validation of arbitrary defaults against their property schema; that parsing the emitted "
     "schema back yields the same interface (value level).",
     "DESIGN.md §2 C06",
@@ -218,7 +221,8 @@ claim(
     "truthiness, directly or through filter(None, ...) over keyword values (0 / False / '' are values); a writer "
     "that escapes characters (.replace(A, B)) has a reader that un-escapes them; no default is classified by an "
     "exact type test that names int but not bool (keyword reads are recognised in place, through lookup helpers and "
-    "through dicts keyed by keyword names).",
+    "through dicts keyed by keyword names); no membership test hashes a parameter's default (the class parser keeps {} / [] as objects); "
+    "no function of the four emit/parse pipelines keeps module-level state, memoises, or writes through / hands back a mutable default (C10's call-history rules on that slice).",
     "NOT decided: equality of the re-parsed interface for all parameter lists; nothing about types, "
     "descriptions or default values (value level). One symbol-wide exemption of the truthiness rule "
     "(function.emit's return default is code text).",
@@ -241,7 +245,8 @@ claim(
     "the hybrid `__table__ = Table(name, ...)` reaches the Table parser as the Table call (not as an assignment the "
     "parser would name `__table__` and reject); the test whether a column `id` exists looks at the mapping the "
     "synthetic `id` column is stored into; the [PK]/[FK(..)] markers are not cut with strip-family calls (character "
-    "sets); the tables are inverse in both import states (with and without the OpenAPI module's update).",
+    "sets); the tables are inverse in both import states (with and without the OpenAPI module's update); the test that no "
+    "column carries [PK] yet ranges over all parameters of the mapping the stores write to, unfiltered.",
     "NOT decided: round-trip equality for all column lists (names, order, defaults, descriptions) — value level.",
     "DESIGN.md §2 C05",
 )
@@ -263,7 +268,9 @@ claim(
     "model is filed under the class's own name, unchanged (no case-changing or renaming call on the key — the "
     "name routes refer to); routes appended to an existing routes file start on a line of their own; the column "
     "entries that become schema properties come from a producer with a whitelist (else AST-valued keywords such "
-    "as server_default=Identity() make the document non-serialisable: known finding).",
+    "as server_default=Identity() make the document non-serialisable: known finding); every non-empty subset of {C,R,D} is a "
+    "--crud choice; handlers are grouped per path over an iterable sorted by that path (groupby merges neighbours only); the body-name "
+    "suffix is taken off at the end, not at its first occurrence.",
     "NOT decided: closure of openapi_bulk's output beyond the key rule (references come out of route docstrings at "
     "run time); JSON serialisability of arbitrary models beyond the producer rule; routes fed back describe the "
     "same model.",
@@ -365,7 +372,8 @@ claim(
     "derive_docstring_format tests earlier; the ' Defaults to ' announce is one of DEFAULTS_TO_VARIANTS; an "
     "untyped default text is classified int before float with a sign-aware integer test (an int stays an int, "
     "a negative number stays negative). The first three are also exercised by the suite's mock comparisons; "
-    "the fourth is not (a genuine defect there was repaired).",
+    "the fourth is not (a genuine defect there was repaired). Plus: no function of the docstring emit/parse pipeline "
+    "keeps module-level state (incl. attributes on module-level functions), memoises or shares a mutable default.",
     "NOT decided — and this is most of the property: the round-trip equality itself (names, order, type "
     "strings, default values and their Python types, descriptions, return entry) over all interfaces x 3 styles "
     "x 8 flag combinations; these are run-time strings produced by index arithmetic over the input text and no "
@@ -385,7 +393,8 @@ claim(
     "value in the emitted annotated class attribute; the argparse emitter never writes required=True together "
     "with default= (else parse_args([]) exits instead of yielding the described default). Three of these fail "
     "on today's tree by upstream convention pinned by the suite's mocks — each is hand-confirmed by executing the "
-    "emitted code once and listed in known_findings.json.",
+    "emitted code once and listed in known_findings.json. Plus: no default is classified by an exact type test that forgets "
+    "bool; a writer that escapes characters has a reader that un-escapes them; the emitters keep no state between calls.",
     "NOT decided — and this is most of the property: that the emitted program compiles and, executed by CPython, "
     "has the described attributes, signature and ArgumentParser for every interface description (the oracle is the "
     "interpreter itself); type conversion (`type=bool` turns the text 'False' into True), choices, help text; "
